@@ -170,10 +170,23 @@ def walk(scheme_builder, rec, rng, fp, ctx, T=30):
     for x, v in zip(xs, vals):
         key = x.tobytes()
         if key not in fresh:
-            with contextlib.redirect_stdout(io.StringIO()):
-                o2, _ = make_optimizer(scheme_builder)
+            # the reference is an optimiser whose VERY FIRST evaluation is at x (its scheme starts there): one that has
+            # evaluated another point before is not fresh with respect to anything remembered from a first evaluation
+            def builder_at_x(x=x):
+                s = scheme_builder()
+                s.parameters.set_from_label_and_value_arrays(labels, x)
+                return s
+
             try:
-                fresh[key] = np.array(o2.objective_function(x), copy=True)
+                with contextlib.redirect_stdout(io.StringIO()):
+                    o2, _ = make_optimizer(builder_at_x)
+                fe = o2._vf_first_evaluations
+                if fe and np.array_equal(fe[0][0], x):
+                    fresh[key] = fe[0][1]
+                    rec.count("walk_references_first_evaluation_at_x")
+                else:
+                    # (scipy moved a start on a bound inside, or log / exp of a non-negative parameter changed an ulp)
+                    fresh[key] = np.array(o2.objective_function(x), copy=True)
             except Exception as e:  # noqa
                 fresh[key] = None
         f = fresh[key]
